@@ -418,7 +418,64 @@ def run(prog: Program, L: Ledger) -> None:
             L.check("on_cell_changed" in called, "P3", f"{d.name}:on_cell_changed", d.where,
                     f"{d.name} can accept cell changes (context {ctx.name}) but its accept path ({', '.join(f.qualname for f in chain)}) never calls on_cell_changed on the stored moves",
                     "a user move implementing on_cell_changed (documented in the Move protocol) is never notified of an accepted cell move", "on_cell_changed")
+    # P3 (guard): the notification is conditional on "the accepted trial changed the cell", decided by comparing the live
+    # cell with the context's saved cell.  That comparison must see the PRE-trial saved cell: evaluated before the chain
+    # call that refreshes it, or on a copy taken before; a plain alias taken before is only as good as the context's
+    # save_state, which must then rebind the slot (an in-place refresh changes the alias too: never notified again).
+    n3g = 0
+    for d in prog.subclasses(mc):
+        ctx = prog.classvar_class(d, "default_context")
+        if ctx is None or defo not in prog.mro(ctx):
+            continue
+        chain = prog.super_chain(d, "save_state")
+        for f in chain:
+            for gif in [n for n in walk_no_nested(f.node) if isinstance(n, ast.If)]:
+                if not any(isinstance(c.func, ast.Attribute) and c.func.attr == "on_cell_changed" for st in gif.body for c in calls_in(st)):
+                    continue
+                n3g += 1
+                sup = [st for st in f.node.body if any(isinstance(c.func, ast.Attribute) and c.func.attr == "save_state" for c in calls_in(st))
+                       and st is not gif]
+                after_refresh = any(st.lineno < gif.lineno for st in sup)
+                # names in the guard and how they were bound
+                slot_reads, alias_names, copy_names = [], [], []
+                def is_slot(e):
+                    return isinstance(e, ast.Attribute) and e.attr.startswith("last_") and "context" in norm(e)
+                for n in ast.walk(gif.test):
+                    if is_slot(n):
+                        slot_reads.append(norm(n))
+                    if isinstance(n, ast.Name):
+                        for st in f.node.body:
+                            if isinstance(st, ast.Assign) and len(st.targets) == 1 and isinstance(st.targets[0], ast.Name) and st.targets[0].id == n.id and st.lineno < gif.lineno:
+                                v = st.value
+                                while isinstance(v, ast.Attribute) and v.attr == "array":
+                                    v = v.value
+                                if is_slot(v):
+                                    (alias_names if not sup or st.lineno < min(x.lineno for x in sup) else slot_reads).append(n.id)
+                                elif any(is_slot(x) for x in ast.walk(st.value)):
+                                    copy_names.append(n.id)
+                if not after_refresh:
+                    continue
+                # which slots does the context chain refresh in place?
+                inplace = []
+                for cf in prog.super_chain(ctx, "save_state"):
+                    for st in walk_no_nested(cf.node):
+                        tg = st.targets if isinstance(st, ast.Assign) else [st.target] if isinstance(st, ast.AugAssign) else []
+                        for t in tg:
+                            b = t
+                            while isinstance(b, ast.Subscript) or (isinstance(b, ast.Attribute) and b.attr == "array"):
+                                b = b.value
+                            if b is not t and isinstance(b, ast.Attribute) and b.attr.startswith("last_"):
+                                inplace.append(f"{cf.qualname}:{norm(t)}")
+                        if isinstance(st, ast.Expr) and isinstance(st.value, ast.Call) and norm(st.value.func) in ("np.copyto", "numpy.copyto") and st.value.args:
+                            inplace.append(f"{cf.qualname}:{norm(st.value)}")
+                bad = bool(slot_reads) or (bool(alias_names) and bool(inplace))
+                why = (f"the guard reads {slot_reads} after the chain call that refreshes the saved cell" if slot_reads else
+                       f"the guard compares with {alias_names}, a name bound to the saved-cell object itself, after {', '.join(inplace)} refreshed that object in place")
+                L.check(not bad, "P3", f"{f.qualname}:on_cell_changed-guard", f"{f.module.relpath}:{gif.lineno}",
+                        f"{why}: the comparison is between the new cell and itself, so an accepted cell change is never reported to the moves",
+                        "a user move implementing on_cell_changed is not told of an accepted cell move (its cached cell-dependent data go stale)", norm(gif.test)[:160])
     L.floor("driver notification obligations", n3, 3)
+    L.floor("cell-notification guards examined", n3g, 1)
 
     # ------------------------------------------------------------------ P4
     sch = emitted_schema(prog, storage_cls)
